@@ -366,12 +366,12 @@ def specs():
         dict(name="lock_create", file="src/munged/lock.c", lean="lock_create", void=True,
              inputs=[("conf", "conf"), ("conf.got_force", "got_force"), ("conf.lockfile_fd", "old_fd")],
              sig=["umask0", "conf", "got_force", "old_fd", "unlink_rc", "errno_unlink_rc", "close_rc", "open_fd",
-                  "lock_set_rc", "lock_pid"],
+                  "lock_set_rc", "lock_pid", "lock_stale"],
              fatal=FATAL, forceable=FORCE,
              calls=dict(LOGS, _lock_create_name=("ignore",), unlink=("sys", "unlink_rc", I32, True),
                         close=("sys", "close_rc", I32), umask=("umask",), open=("create", "open_fd", I32, 2),
                         _lock_stat=("event", 0, []), _lock_set=("sys", "lock_set_rc", I32, True),
-                        _lock_is_set=("sys", "lock_pid", I32))),
+                        _lock_is_set=("sys", "lock_pid", I32), _lock_is_stale=("sys", "lock_stale", I32))),
         dict(name="_lock_stat", file="src/munged/lock.c", lean="lock_stat", void=True,
              inputs=[], sig=["fstat_rc", "f_mode", "f_uid", "euid"], fatal=FATAL, forceable=FORCE,
              calls=dict(LOGS, fstat=("stat", "f", "fstat_rc"), geteuid=("input", "euid", U32))),
